@@ -73,12 +73,13 @@ type target struct {
 	NilRes    []string // result types (source text, e.g. "*Rule") reported as a Z code like an error: 0 = nil, Errs[expr] otherwise
 	LoopFrame int      // N >= 1: the whole function with its N-th top-level loop replaced by the parameter loop_fn (carried tuple -> carried tuple)
 	// ext_chain.go
-	RefTypes  []string        // type texts whose variables / results are object references (abstract ids, 0 = nil)
-	RefCalls  map[string]hint // method name -> parameter (Z -> Typ) applied to the reference the method is called on
-	Stores    map[string]act  // left-hand side text of an assignment -> recorded action (Keep [0]: the stored value)
-	LoopMarks map[int]act     // k-th loop in source order at any depth -> recorded action (the loop is not read)
-	LoopAny   bool            // with LoopBody N: N counts loops at any depth; no prologue (declarations only)
-	CanonIn   bool            // LoopAny step: the <name>_in parameters are called var_in_<i>, i = declaration order (a renamed local keeps its name and position)
+	RefTypes     []string          // type texts whose variables / results are object references (abstract ids, 0 = nil)
+	RefCalls     map[string]hint   // method name -> parameter (Z -> Typ) applied to the reference the method is called on
+	Stores       map[string]act    // left-hand side text of an assignment -> recorded action (Keep [0]: the stored value)
+	LoopMarks    map[int]act       // k-th loop in source order at any depth -> recorded action (the loop is not read)
+	LoopAny      bool              // with LoopBody N: N counts loops at any depth; no prologue (declarations only)
+	AlwaysParams map[string]string // parameters (name -> Go type) the definition takes even when the code does not read them (a stable signature: ext_chain.go)
+	CanonIn      bool              // LoopAny step: the <name>_in parameters are called var_in_<i>, i = declaration order (a renamed local keeps its name and position)
 	// ext_io.go
 	IO          bool            // I/O-style functions: Rets, IOStores, defer, select, parallel assignment, ... (see ext_io.go)
 	Rets        map[string]hint // call text or callee text -> {base name, "t0,t1,..."}: results of a call that are not one scalar
@@ -1537,6 +1538,9 @@ func translate(root *rootT, t target) (def string, info outFn) {
 		fd = litDecl(fd, t.Lit, addVar)
 	}
 	x.markFn = fd
+	for n, ty := range t.AlwaysParams { // ext_chain.go: a signature that does not depend on optional guards
+		x.params[cname(n)] = ty
+	}
 	var before []ast.Stmt
 	if t.LoopBody > 0 && t.LoopAny {
 		x.loop, before = findLoopAny(fd.Body, x.canonLoopIndex(fd, t.LoopBody, true)) // ext_chain.go; loopcanon.go
